@@ -324,7 +324,7 @@ def run(chk):
                         hook.ACTIVE_CUTS.clear()
                     for k, pr in enumerate(paths):
                         if pr.exc is not None:
-                            chk.fail(f"{tag}.path{k}.no_exception", f"{type(pr.exc).__name__}: {pr.exc}", fn=fnname, replay=rp)
+                            chk.raised(f"{tag}.path{k}.no_exception", pr.exc, fn=fnname, replay=rp)
                             continue
                         check_fixed(f"{tag}.path{k}", pr.value, tv, fnname)
                     chk.configs += 1
